@@ -15,6 +15,9 @@ import (
 )
 
 const extraPrelude = `
+(declare-fun hintI (Int) Bool)
+(declare-fun hintS (Str) Bool)
+(declare-fun hintB (Bool) Bool)
 (define-fun gdiv ((a Int) (b Int)) Int (ite (>= a 0) (ite (> b 0) (div a b) (- (div a (- b)))) (ite (> b 0) (- (div (- a) b)) (div (- a) (- b)))))
 (define-fun gmod ((a Int) (b Int)) Int (- a (* b (gdiv a b))))
 (declare-fun srune (Int) Str)
@@ -200,20 +203,6 @@ func discharge(vc *VC, dir string, timeoutS int, model bool) {
 	}
 	vc.AllRes = map[string]string{}
 	start := time.Now()
-	// phase 1: z3 4.8.12 with a short budget
-	q := 3
-	if timeoutS < q {
-		q = timeoutS
-	}
-	r, o := runSolver(context.Background(), solvers[0], file, q)
-	vc.AllRes["z3"] = r
-	if r == "unsat" || r == "sat" {
-		vc.Result, vc.Backend, vc.Output = r, "z3", o
-		vc.Ms = time.Since(start).Milliseconds()
-		if r == "unsat" {
-			return
-		}
-	}
 	// phase 2: race all three with full timeout
 	ctx, cancel := context.WithCancel(context.Background())
 	defer cancel()
